@@ -56,6 +56,8 @@ class Relay:
                 pass
 
     def down(self, b, c, limit, mode):
+        if mode == 'drop':
+            return self.down_drop(b, c, limit)
         try:
             while True:
                 d = b.recv(4096)
@@ -82,6 +84,31 @@ class Relay:
                 except OSError:
                     pass
                 s.close()
+
+    def down_drop(self, b, c, k):
+        """forward whole frames, silently losing frame number k (a device that skips one reply); the connection stays up"""
+        buf, idx = b'', 0
+        try:
+            while True:
+                d = b.recv(4096)
+                if not d:
+                    break
+                buf += d
+                while len(buf) >= 24 and len(buf) >= 24 + struct.unpack('<H', buf[2:4])[0]:
+                    n = 24 + struct.unpack('<H', buf[2:4])[0]
+                    f, buf = buf[:n], buf[n:]
+                    if idx != k:
+                        c.sendall(f); self.delivered += n; self.stream += f
+                    idx += 1
+        except OSError:
+            pass
+        finally:
+            for sk in (c, b):
+                try:
+                    sk.shutdown(socket.SHUT_RDWR)
+                except OSError:
+                    pass
+                sk.close()
 
     def close(self):
         self.alive = False
@@ -111,14 +138,14 @@ def canon(v):
     return list(v) if hasattr(v, '__iter__') and not isinstance(v, (str, bytes)) else v
 
 
-def use_connector(port, how, multiple=0):
+def use_connector(port, how, multiple=0, tags=None):
     """-> (results [(status, value)], error name | None)"""
     from cpppo.server.enip import client
     res, err = [], None
     conn = None
     try:
         conn = client.connector(host='127.0.0.1', port=port, timeout=1.0)
-        ops = list(client.parse_operations(TAGS))
+        ops = list(client.parse_operations(tags or TAGS))
         with conn:
             if how == 'pipeline':
                 gen = conn.pipeline(operations=ops, depth=3, multiple=multiple, timeout=1.0)
@@ -218,6 +245,28 @@ def run(ctx):
                             nnontriv += 1
                     else:
                         nnontriv += 1
+        # ---- one whole reply frame lost (the connection stays up): bundles of several sizes, every frame in turn.  The replies that
+        # follow the lost one must never be handed out as the results of the requests before them
+        combos = [(m, n) for m in (120, 140, 170, 250, 0) for n in range(2, len(TAGS) + 1)]
+        if not ctx.thorough:
+            combos = [(140, 3), (140, 4), (140, 5), (170, 6), (120, 6), (250, 5), (0, 3)] + rng.sample(combos, 3)
+        for multiple, n in combos:
+            tags = TAGS[:n]
+            relay.limit, relay.mode = None, 'cut'
+            expect, err = use_connector(relay.port, 'pipeline', multiple, tags)
+            nframes = frames_in(relay.stream)[0]
+            if err or len(expect) != n:
+                raise core.HarnessError('fault-free run failed: %r %r' % (err, expect))
+            for k in range(1, nframes):
+                relay.limit, relay.mode = k, 'drop'
+                got, err = use_connector(relay.port, 'pipeline', multiple, tags)
+                ncut += 1
+                w = dict(api='pipeline', multiple=multiple, operations=tags, lost_reply_frame=k, of=nframes, results=got, error=err, expected=expect)
+                if got != expect[:len(got)]:
+                    bad(w, 'after a lost reply frame a yielded result is not the correct result of its own request'); continue
+                if err is None and len(got) != len(expect):
+                    bad(w, 'the result stream ended without an error after %d of %d results' % (len(got), len(expect))); continue
+                nnontriv += 1
         # ---- the proxy layer: discard on failure, reconnect on next use
         from cpppo.server.enip.get_attribute import proxy
         tags = ['SCADA[1]', 'D[3]', 'SCADA[50-52]']
@@ -259,6 +308,44 @@ def run(ctx):
             else:
                 nnontriv += 1
             via.close_gateway()
+        # ---- a bare proxy.list_identity() on an established gateway, its reply cut at every k-th offset: must raise, discard, reconnect
+        relay.limit = None
+        via = proxy(host='127.0.0.1', port=relay.port, timeout=1.0, depth=2)
+        try:
+            ident = via.list_identity()
+            base_len = relay.delivered             # register reply + the gateway's own List Identity reply + ours
+            name = str(ident.product_name)
+        finally:
+            via.close_gateway()
+        ident_len = (base_len - 28) // 2
+        for off in sorted(set(range(0, ident_len, 1 if ctx.thorough else 11)) | {1, 24, ident_len - 1}):
+            relay.limit, relay.mode = 28 + ident_len + off, 'cut'
+            via = proxy(host='127.0.0.1', port=relay.port, timeout=1.0, depth=2)
+            err = None
+            try:
+                with via:
+                    pass                            # gateway established (its own List Identity passes)
+                try:
+                    via.list_identity()
+                except Exception as e:
+                    err = type(e).__name__
+                ncut += 1
+                w = dict(api='proxy.list_identity', delivered_bytes=relay.limit, error=err)
+                if err is None:
+                    bad(w, 'proxy.list_identity returned although its reply was cut'); continue
+                if via.gateway is not None:
+                    bad(w, 'after a failed list_identity the proxy did not discard its connection'); continue
+                relay.limit = None
+                try:
+                    again = str(via.list_identity().product_name)
+                except Exception as e:
+                    again = type(e).__name__
+                if again != name:
+                    bad(dict(w, next_use=again), 'the use after a failed list_identity did not reconnect and return correct data')
+                else:
+                    nnontriv += 1
+            finally:
+                via.close_gateway()
     finally:
         relay.close()
         proc.terminate()
